@@ -4,7 +4,7 @@
 # with it and passes without it.
 WT=$1; P=$2; cd $WT || exit 2
 export CARGO_NET_OFFLINE=true
-for k in a b; do
+for k in ${KS:-a b}; do
   D=$WT/SEEDED/$P$k
   [ -d $D ] || { echo "$P$k MISSING"; continue; }
   git checkout -q -- . ; rm -f tests/demo.rs
